@@ -147,7 +147,7 @@ def get_line_context(line: str) -> tuple[str, None] | tuple[str, str]:
 
 def get_parameter_value(line: str) -> str | None:
     """Get the value of a PARAMETER from the text following its name i.e.
-    ``[(dims)] = value[, ...]``
+    ``[(dims)][*len] = value[, ...]``
 
     The value ends at the first comma that is not inside parentheses, brackets
     or a character literal, or at a trailing comment.
@@ -156,7 +156,9 @@ def get_parameter_value(line: str) -> str | None:
     '2*(3+1)'
     """
     eq_ind = strip_strings(line, maintain_len=True).find("=")
-    if eq_ind < 0 or not re.match(r"[ &]*(\([^=]*\))?[ &]*$", line[:eq_ind]):
+    if eq_ind < 0 or not re.match(
+        r"[ &]*(\([^=]*\))?[ &]*(\*[ &]*(\d+|\([^=]*\)))?[ &]*$", line[:eq_ind]
+    ):
         return None
     if line[eq_ind + 1 : eq_ind + 2] == ">":
         return None
